@@ -40,6 +40,10 @@ CHECKS = {
    technique="real validator run natively on an enumerated family of grammar texts; for each accepted grammar z3 searches every input up to N bytes for a path of the reference PEG semantics that re-enters a rule or iterates a repetition without consuming (sound non-termination witness), replayed on the real VM under a call limit; rejected grammars are checked against the syntactic sufficient condition",
    text="Reduced form of the property: the validator cannot be executed symbolically (ParserRule trees, HashMap, format!), so it runs natively on 500 (quick) / 4000 (thorough) grammar texts: every operator (? * + {n} {n,} {,n} {m,n} ! & parentheses) around a leftmost self or mutual reference, with every kind of nullable / non-progressing / progressing left neighbour, in sequences and choices, plus repetition-body and WHITESPACE/COMMENT-body shapes. For accepted grammars the solver decides over all inputs of 0..N bytes (N=2/3) whether the reference semantics can re-enter a rule at an unchanged (position, stack depth, mode); a witness is confirmed by the real VM exhausting a call limit or its stack. Grammars meeting the statement's sufficient condition must be accepted.",
    note="Exhaustive only over the enumerated family and input bound. Trusted: reference semantics; the sufficient-condition predicate (30 lines); z3. Grammars using stack built-ins are outside the property."),
+ "C08": dict(level="model_checking", design="§5 C08", engine="M",
+   technique="symbolic execution of the MIR of Vm::parse + pest::state() + ParserState::{rule,track} on fully symbolic input; on every failing path the reported position and rule lists are checked against the attempt log of the reference semantics evaluated on the same path condition",
+   text="For derive/tests/reporting.pest (nine start rules) and the seeded grammar family (120 quick / 1000 thorough) and every valid UTF-8 input of 0..N bytes (N=3/5): every failing path of the real VM is checked: the reported position is the furthest position at which a reportable rule failed (or matched under negation), 0 if none; each expected rule failed exactly there outside negation, each unexpected rule matched exactly there under negation; both lists are sorted, duplicate-free and not both empty when a reportable failure exists. The error (position, positives, negatives) of every path is compared with the compiled VM's.",
+   note="VM back-end only. The statement's replacement rule for nested attempts (parent instead of children unless exactly one) is not re-derived by the oracle: only its soundness consequences are checked. Trusted as for C01."),
 }
 
 NOT_APPLICABLE = {
